@@ -31,7 +31,7 @@ fn variants(_plan: &str, _t: Tier) -> Vec<&'static str> {
     vec![""]
 }
 
-fn boot(plan: &str, _t: Tier) -> BootCfg {
+fn boot(plan: &str, _v: &str, _t: Tier) -> BootCfg {
     BootCfg::new(plan)
 }
 
